@@ -860,6 +860,11 @@ def classify(items, target, stage, detail):
 
 
 def report(chk, part, items, fails):
+    if items and items[0][0] == "cap":
+        # isolation gave up on a package with many interacting failures: bookkeeping, not a verdict
+        chk.exhaustive = False
+        chk.extra["isolation_capped"] = chk.extra.get("isolation_capped", 0) + 1
+        return
     by_target = {}
     for t, s, d in fails:
         by_target.setdefault(t, []).append((s, d))
